@@ -119,8 +119,12 @@ class World:
         if t["type"] == "bool":
             return bool(t["global"])
         d = {"global": bool(t["global"])}
+        seq_as = t.get("seq_as", "list")
         for k, v in t.get("extra", {}).items():
-            d[k] = list(v) if isinstance(v, list) else bool(v)
+            if isinstance(v, list):
+                d[k] = tuple(v) if seq_as == "tuple" else (np.array(v, dtype=bool) if seq_as == "ndarray" else list(v))
+            else:
+                d[k] = bool(v)
         return d
 
     # -- reference record of what an accepted add() must have stored ----------
